@@ -10,11 +10,13 @@ import (
 	"context"
 	"fmt"
 	"os"
+	"os/exec"
 	"path/filepath"
 	"regexp"
 	"sort"
 	"strconv"
 	"strings"
+	"syscall"
 	"testing"
 	"time"
 
@@ -31,6 +33,10 @@ type entry struct {
 	Dir     bool
 	AgeMin  int // age in minutes relative to now
 	Comment string
+	// Special: not a regular file although named like an own file - "symlink-file", "symlink-dir",
+	// "symlink-dangling" (the link itself carries the old modification time) or "fifo". The cleanup
+	// deletes regular files only.
+	Special string
 }
 
 type popCase struct {
@@ -113,6 +119,10 @@ func genCase(t *rapid.T) popCase {
 			e = entry{Name: c.Name + "." + digits14.Draw(t, l+"ts"), Dir: true, Comment: "directory named like an own file"}
 		case 8:
 			e = entry{Name: rapid.SampledFrom([]string{"archive", c.Name + ".d", "sub"}).Draw(t, l+"dir"), Dir: true, Comment: "directory"}
+			if rapid.Bool().Draw(t, l+"special") {
+				sp := rapid.SampledFrom([]string{"symlink-dir", "symlink-file", "fifo", "symlink-dangling"}).Draw(t, l+"specialKind")
+				e = entry{Name: c.Name + "." + digits14.Draw(t, l+"ts"), Special: sp, Comment: "not a regular file (" + sp + ") named like an own file"}
+			}
 		default:
 			e = entry{Name: c.Name + ".wf." + digits14.Draw(t, l+"ts"), Comment: "sibling appender's file"}
 		}
@@ -200,7 +210,7 @@ func newAppenderEvery(dir, name string, maxAge, intervalM int) *log.RollingFileA
 // verdict: -1 must be deleted, +1 must survive, 0 either (within a minute of the cut-off)
 func verdict(appName string, maxAge int, e entry) int {
 	own := regexp.MustCompile(`^` + regexp.QuoteMeta(appName) + `\.\d{14}$`)
-	if e.Dir || !own.MatchString(e.Name) {
+	if e.Dir || e.Special != "" || !own.MatchString(e.Name) {
 		return +1
 	}
 	cut := maxAge * 60
@@ -211,6 +221,37 @@ func verdict(appName string, maxAge int, e entry) int {
 		return +1
 	}
 	return 0
+}
+
+// makeSpecial puts something that is not a regular file at p, with the given modification time
+// (for a symbolic link: the time of the link itself, which is what a directory listing reports).
+func makeSpecial(dir, p, kind string, mt time.Time) error {
+	targetDir, targetFile := filepath.Join(dir, "linked.d"), filepath.Join(dir, "linked.txt")
+	_ = os.Mkdir(targetDir, 0o755)
+	if _, err := os.Stat(targetFile); err != nil {
+		_ = os.WriteFile(targetFile, []byte("precious\n"), 0o644)
+	}
+	var err error
+	switch kind {
+	case "symlink-dir":
+		err = os.Symlink(targetDir, p)
+	case "symlink-file":
+		err = os.Symlink(targetFile, p)
+	case "symlink-dangling":
+		err = os.Symlink(filepath.Join(dir, "nowhere"), p)
+	default:
+		if err = syscall.Mkfifo(p, 0o644); err == nil {
+			err = os.Chtimes(p, mt, mt)
+		}
+		return err
+	}
+	if err != nil {
+		return err
+	}
+	if out, err := exec.Command("touch", "-h", "-d", "@"+strconv.FormatInt(mt.Unix(), 10), p).CombinedOutput(); err != nil {
+		return fmt.Errorf("touch -h: %v %s", err, out)
+	}
+	return nil
 }
 
 func runCase(c popCase, dir string) error {
@@ -233,6 +274,12 @@ func runCase(c popCase, dir string) error {
 		p := filepath.Join(dir, e.Name)
 		if current[e.Name] {
 			continue // never fabricate an old *current* file: that state is unreachable
+		}
+		if e.Special != "" {
+			if err := makeSpecial(dir, p, e.Special, now.Add(-time.Duration(e.AgeMin)*time.Minute)); err != nil {
+				return fmt.Errorf("VERIF-INCONCLUSIVE: %v", err)
+			}
+			continue
 		}
 		if e.Dir {
 			if err := os.Mkdir(p, 0o755); err != nil {
@@ -506,6 +553,9 @@ func TestRegress_C14(t *testing.T) {
 	base := vk.Scratch("c14g")
 	for i, c := range []popCase{
 		{Name: "app.log", MaxAge: 1, Entries: []entry{{Name: "app.log.bak", AgeMin: 62, Comment: "prefix-sharing foreigner"}}},
+		// F22: symbolic links and pipes named like own files were deleted
+		{Name: "app.log", MaxAge: 1, Entries: []entry{{Name: "app.log.00000000000000", AgeMin: 62, Special: "symlink-dir", Comment: "not a regular file"}, {Name: "app.log.20200101000001", AgeMin: 600, Special: "symlink-file", Comment: "not a regular file"},
+			{Name: "app.log.20200101000002", AgeMin: 600, Special: "fifo", Comment: "not a regular file"}, {Name: "app.log.20200101000003", AgeMin: 600, Special: "symlink-dangling", Comment: "not a regular file"}, {Name: "app.log.20200101000004", AgeMin: 600, Comment: "own"}}},
 		{Name: "app.log", MaxAge: 1, Sibling: true, Entries: []entry{{Name: "app.log.wf.20200101000000", AgeMin: 30, Comment: "sibling appender's file"}, {Name: "app.log.20200101000000", AgeMin: 600, Comment: "own"}, {Name: "app.log.1.gz", AgeMin: 6000, Comment: "prefix-sharing foreigner"}}},
 	} {
 		dir := filepath.Join(base, strconv.Itoa(i))
